@@ -588,6 +588,13 @@ wait=False)`, i.e. `_send_user_message` *on the transport thread* — the self-b
 with the request pending. -/
 theorem keepalive_silent_while_rekey_pending : Generated.C11.keepaliveSilentWhileRekeyPending = true := by decide
 
+/-- **A window credit that cannot be sent yet is parked, not dropped** (AST of `Channel.recv` / `recv_stderr`, read on
+every run): once `_check_add_window` has handed out a credit (and zeroed `in_window_sofar`) the WINDOW_ADJUST is
+sent under the plain test `ack > 0` — through `_send_user_message`, i.e. a user-thread message that the model parks
+while an exchange is open and writes right after NEWKEYS (`C11_partial_delivery`).  Skipping the send while
+`clear_to_send` is cleared would lose the credit for good: the peer's window shrinks with every re-exchange. -/
+theorem window_credit_parked_not_dropped : Generated.C11.recvSendsEveryComputedAck = true := by decide
+
 end Gate
 
 end PV.Props.C11
